@@ -24,8 +24,11 @@ def gen_plan(rng, opts=None):
     for _ in range(rng.randint(2, 10)):
         d = rng.choice(dss)
         r = rng.random()
-        gap = rng.choice([0, 0, 1, 3, 10, 30, 60]) * 100
-        if r < 0.55:
+        gap = rng.choice([0, 0, 50, 100, 200, 400, 1000, 3000, 100_000, 300_000, 1_000_000, 3_000_000, 6_000_000])   # microseconds
+        if r < 0.12:
+            # a purge at the target timed to land while the payload of this very transfer is being stored there
+            cmds.append(["tx_purge", d, rng.choice(hosts), rng.choice([0, 0, 10, 30, 60, 100, 200, 500]), gap])
+        elif r < 0.55:
             cmds.append(["tx", d, rng.choice(hosts), gap])
         elif r < 0.8:
             cmds.append(["fetch", d, gap])
@@ -94,6 +97,7 @@ def run(plan, ch, want_log=False):
             self_._verif_name = None
         return orig_ab_close(self_)
 
+    purge_on_payload = {}                              # (target host, transmit idx) -> (dataset, delay in us)
     payload_first = collections.defaultdict(dict)      # host -> transmit idx -> seq at which its payload first reached the data server
 
     def zrecv(addr, frames):
@@ -112,7 +116,15 @@ def run(plan, ch, want_log=False):
                 elif len(frames) == 3:
                     hd = pickle.loads(frames[1])
                     if isinstance(hd, DatasetTransmitPayloadHeader):
+                        first = hd.confirm_idx not in payload_first[h]
                         payload_first[h].setdefault(hd.confirm_idx, K.seq)
+                        trig = purge_on_payload.pop((h, hd.confirm_idx), None) if first else None
+                        if trig is not None:
+                            from cascade.executor.serde import ser_message
+                            ds, delay_us = trig
+                            frames_p = [ser_message(DatasetPurge(ds=ds))]
+                            K.fire("purge_timed_into_store")
+                            K.at(K.now + delay_us * 1000, lambda a=fakes.Net.norm(daddr[h]), f=frames_p: K.net._deliver(a, f))
             except Exception:
                 return
     K.handlers["zrecv"].append(zrecv)
@@ -158,10 +170,14 @@ def run(plan, ch, want_log=False):
         unanswered = {}
         issued = []
 
-        def pump(ms):
-            end = K.now + ms * 1_000_000
+        def pump(ms, us=0):
+            end = K.now + ms * 1_000_000 + us * 1000
             while K.now < end:
-                for m in l.recv_messages(min(200, max(1, (end - K.now) // 1_000_000))):
+                left = end - K.now
+                if left < 1_000_000:
+                    K.sleep(left)        # sub-millisecond gaps: place a command inside another operation's window
+                    break
+                for m in l.recv_messages(min(200, max(1, left // 1_000_000))):
                     if isinstance(m, Ack):
                         s.ack(m.idx)
                     elif isinstance(m, DatasetTransmitPayload):
@@ -178,9 +194,9 @@ def run(plan, ch, want_log=False):
                             holds[h].add(r)
 
         for c in plan["cmds"]:
-            pump(c[-1] + 1)
-            if c[0] == "tx":
-                _, r, tgt, _ = c
+            pump(0, c[-1])
+            if c[0] in ("tx", "tx_purge"):
+                r, tgt = c[1], c[2]
                 srcs = [h for h in hosts if r in holds[h] and r not in purged[h] and h != tgt]
                 if not srcs or r in purged[tgt]:
                     continue
@@ -188,6 +204,10 @@ def run(plan, ch, want_log=False):
                 s.send("data." + src, DatasetTransmitCommand(source=src, target=tgt, daddress=daddr[tgt], ds=ds_of[r], idx=idx))
                 unanswered[idx] = ("tx", r, src, tgt)
                 issued.append(("tx", idx, r, src, tgt, r in holds[tgt], K.seq))
+                if c[0] == "tx_purge" and r not in holds[tgt]:
+                    purge_on_payload[(tgt, idx)] = (ds_of[r], c[3])
+                    purged[tgt].add(r)
+                    issued.append(("purge", None, r, tgt, None, False, K.seq))
                 idx += 1
             elif c[0] == "fetch":
                 _, r, _ = c
@@ -249,6 +269,19 @@ def run(plan, ch, want_log=False):
             if ps is not None and tidx is not None and pf is not None and pf > ps:
                 # the payload reached this data server only after the purge did: it must have been discarded
                 viol.append(("C07", "payload_after_purge_announced", (h, r, tidx)))
+    for h in hosts:
+        # a dataset's arrival is announced once per host: not again for a redundant transfer (another idx), not for a dataset
+        # the host produced itself - unless it was purged there in between
+        per_ds = collections.defaultdict(list)
+        for (r, tidx, seq) in announced[h]:
+            if tidx is not None:
+                per_ds[r].append(seq)
+        for r, seqs in per_ds.items():
+            ps = purge_delivered[h].get(r)
+            if r in loaded[h] and (ps is None or min(seqs) < ps):
+                viol.append(("C07", "announced_although_already_held", (h, r, len(seqs))))
+            elif len(seqs) > 1 and (ps is None or not (min(seqs) < ps < max(seqs))):
+                viol.append(("C07", "dataset_announced_twice", (h, r, len(seqs))))
     for kind, idx, r, a, b, had, seq in issued:
         if kind == "tx":
             src, tgt = a, b
@@ -342,6 +375,10 @@ def shrink_candidates(plan):
             c = copy.deepcopy(plan)
             c["cmds"][i][-1] = 0
             yield c
+            if x[-1] > 1000:
+                c = copy.deepcopy(plan)
+                c["cmds"][i][-1] = x[-1] // 10
+                yield c
 
 
 def sample(plan):
